@@ -63,6 +63,37 @@ func init() {
 			rep.Evaluations++
 			e.Close()
 		}
+		// directed: a nearly full bounded file whose meta area is completely in use and which never freed a page: no
+		// free list is stored (free-list root 0) although the meta area is not empty (seeded change C10k)
+		for _, maxPages := range []int{15, 17, 19, 21, 24} {
+			for over := 1; over <= 4; over++ {
+				cfg := engine.Config{PageSize: 4096, MaxSize: uint64(maxPages) * 4096}
+				H := []engine.Op{{Kind: "begin"}, {Kind: "alloc", N: 10}}
+				for k := 0; k < 10; k++ {
+					H = append(H, engine.Op{Kind: "setfull", P: k, Seed: 3 + k})
+				}
+				H = append(H, engine.Op{Kind: "commit"}, engine.Op{Kind: "begin", WALLimit: 1000})
+				for k := 0; k < over; k++ {
+					H = append(H, engine.Op{Kind: "setfull", P: k, Seed: 40 + k})
+				}
+				H = append(H, engine.Op{Kind: "commit"})
+				K := []engine.Op{{Kind: "begin", WALLimit: 1000}, {Kind: "checkpoint"}, {Kind: "commit"},
+					{Kind: "begin"}, {Kind: "alloc", N: 2}, {Kind: "commit"},
+					{Kind: "begin", WALLimit: 1000}, {Kind: "setfull", P: 5, Seed: 77}, {Kind: "commit"},
+					{Kind: "begin"}, {Kind: "alloc", N: 1}, {Kind: "alloc", N: 1}, {Kind: "commit"}}
+				twinCase(rep, cfg, H, []engine.Op{{Kind: "reopen"}}, K, int64(1000+maxPages*10+over), "reopen", true)
+				if e, err := engine.RunHistory(cfg, H, nil); err == nil {
+					if e.File != nil {
+						if sn := txfile.VerifSnapshot(e.File); sn.FreelistRoot == 0 && sn.MetaTotal > 0 {
+							rep.count("scenario:no-free-list-although-the-meta-area-is-in-use", 1)
+						}
+					}
+					e.Apply(engine.Op{Kind: "reopen"})
+					recoverK1(rep, m, e, "no-free-list")
+					e.Close()
+				}
+			}
+		}
 		for i := 0; i < n; i++ {
 			if rep.outOfTime() {
 				break
